@@ -25,6 +25,8 @@ DEFAULT_KW = {"solution_limit": 1, "luby_factor": 100, "max_conflicts": 100_000,
 
 
 # ------------------------------------------------------------------------------------------- cases
+BROKEN_FLAG = None  # path of a flag file the engine creates when the tree is evidently broken (>= 5 calls that do not return); see sat_shapes
+
 def mk(clauses, assumptions=(), family="", **kw):
     k = dict(DEFAULT_KW)
     k.update(kw)
@@ -607,15 +609,20 @@ def run_engine(ctx: Ctx, pid: str):
 
     outs = pmap(run_impl, cases)
     hangs = sum(1 for o in outs if o["outcome"] == "hang")
+    if BROKEN_FLAG and hangs < 5:
+        open(BROKEN_FLAG, "w").write("ok")  # tells the heavy-instance workers (sat_shapes) that long guards are worth their time
     if hangs >= 5:  # broken tree: every hang costs 5 s, a small random batch is enough to report
-        ctx.notes.append(f"{hangs} hangs among the {len(cases)} corpus/fixed cases: random batch cut to 60 cases")
+        ctx.notes.append(f"{hangs} hangs among the {len(cases)} corpus/fixed cases: random batch cut to 60 cases, heavy / sequence / sweep families cut short")
         rand_cases = rand_cases[:60]
+        ctx.extra["broken_tree_hangs"] = hangs
+        if BROKEN_FLAG:
+            open(BROKEN_FLAG, "w").write("broken")
     outs += pmap(run_impl, rand_cases)
     cases = cases + rand_cases
     # a 5 s expiry on a loaded machine is re-tried once with 20 s before it counts as "does not return"
     retried = 0
     for i, o in enumerate(outs):
-        if o["outcome"] == "hang" and retried < 3:
+        if o["outcome"] == "hang" and retried < (1 if ctx.extra.get("broken_tree_hangs") else 3):
             retried += 1
             o2 = run_impl(cases[i], 20)
             if o2["outcome"] != "hang":
@@ -676,7 +683,7 @@ def run_engine(ctx: Ctx, pid: str):
                     o = run_impl(t, 2)
                     return bool(judge(t, o, Truth(t["clauses"], t["assumptions"]), False) or (pid == "C02" and o.get("input_modified")))
 
-                small = shrink(case, fails) if len(cl) <= 300 else case
+                small = shrink(case, fails, seconds=15 if ctx.extra.get("broken_tree_hangs") else 40) if len(cl) <= 300 else case
                 if (small.get("shape") or {}).get("alias"):  # drop alias groups that no longer name equal clauses
                     k = small["clauses"]
                     small["shape"]["alias"] = [g for g in ([i for i in g0 if i < len(k)] for g0 in small["shape"]["alias"])
@@ -859,10 +866,12 @@ def run_sweep(ctx: Ctx):
         for o in sweep_budgets(ctx.rng, big):
             cases.append(mk(cl, [], "sweep-" + name, **o))
             meta.append(ku)
+    if ctx.extra.get("broken_tree_hangs"):  # the violation is established; a small sample of the sweep is enough to report
+        cases, meta = cases[:24], meta[:24]
     outs = pmap(run_impl, cases)
     retried = 0
     for i, o in enumerate(outs):  # a 5 s expiry on a loaded machine is re-tried once with 20 s
-        if o["outcome"] == "hang" and retried < 2:
+        if o["outcome"] == "hang" and retried < (0 if ctx.extra.get("broken_tree_hangs") else 2):
             retried += 1
             o2 = run_impl(cases[i], 20)
             if o2["outcome"] != "hang":
@@ -885,7 +894,7 @@ def run_sweep(ctx: Ctx):
             continue
         reported.add(fam)
         rep_case, rep_out = case, out
-        if out["outcome"] == "hang" and "max_restarts" not in {k for k, v in case["kw"].items() if v != DEFAULT_KW[k]}:
+        if out["outcome"] == "hang" and not ctx.extra.get("broken_tree_hangs") and "max_restarts" not in {k for k, v in case["kw"].items() if v != DEFAULT_KW[k]}:
             # minimise over the budget value: the smallest max_conflicts (same instance, same other options) that does not return
             for m in range(1, case["kw"]["max_conflicts"]):
                 t = json.loads(json.dumps(case))
